@@ -1,18 +1,19 @@
 """C20 - Exhausted arena memory is handled gracefully.
 
-Domain : generated contact-rich scenes (piles of 3-14 free bodies of 5 geom types on a plane, optional articulated chain
-         with joint limits / friction loss / connect / limited tendon; all solvers, cones, Jacobian modes, islands on/off,
-         noslip, multiccd) x memory sizes: the memory need of 3 steps is found by binary search (smallest <size memory>
-         whose run is warning-free and identical to the unbounded run), likewise the smallest size that still compiles;
-         then sizes below the need are swept (quick: 40 evenly spaced + every 64 bytes in the 4 KB above the compile
-         minimum + need-1/need/need+64; thorough: every 64 bytes).
-Oracle : per (scene, size) in a supervised ASan worker (and the release build for half of the scenes): mj_step completes or
-         raises a catchable mju_error - never a sanitizer report / process death; when it completes: counts and pointers
-         consistent (0 <= ncon, nefc; contact.efc_address in [-1, nefc); efc arrays non-NULL inside the arena; parena,
-         maxuse_arena <= narena; pstack = 0), state and efc_force finite; for the first steps (same pre-state as the
-         unbounded run): contacts are a subset of the unbounded run's contacts, a smaller ncon/nefc implies
-         CONTACTFULL/CNSTRFULL was raised in that step, and without a warning ncon, nefc, qpos, qvel are bit-identical to
-         the unbounded run.
+Domain : generated contact-rich scenes (piles or margin-clusters of 3-10 (thorough: 24) free bodies of 5 geom types on a
+         plane, optional articulated chain with joint limits / friction loss / connect / limited tendon; all solvers, cones,
+         Jacobian modes, islands on/off, noslip, multiccd) + 3 fixed scenes (dual-solver sparse/dense, 14-sphere cluster) x
+         memory sizes from 0 up to the need: the need of the run is bisected around mjData.maxuse_arena of the unbounded
+         run (smallest arena whose run is warning-free and identical to the unbounded run), then sizes are swept (quick:
+         ~150 evenly spaced + every 32 bytes below 4 KB + need-1/need/need+64; thorough: every 64 bytes, every 8 below
+         8 KB).  The arena size is applied as mjModel.narena on the model compiled with ample memory.
+Oracle : per (scene, size) in a supervised ASan worker (and the release build for half of the scenes): mj_makeData/mj_step
+         complete or raise a catchable mju_error - never a sanitizer report / process death; when a step completes: counts
+         and pointers consistent (0 <= ncon, nefc; contact.efc_address in [-1, nefc); efc arrays non-NULL inside the arena;
+         parena, maxuse_arena <= narena; pstack = pbase = 0), state and efc_force finite; for the first steps (same
+         pre-state as the unbounded run): contacts are a subset of the unbounded run's contacts, a smaller ncon/nefc
+         implies CONTACTFULL/CNSTRFULL was raised in that step, and without a warning ncon, nefc, qpos, qvel are
+         bit-identical to the unbounded run.
 """
 import json
 import os
@@ -21,6 +22,7 @@ import shutil
 import subprocess
 import sys
 import threading
+import time
 
 import numpy as np
 from hypothesis import strategies as st
@@ -41,7 +43,7 @@ def postmortem(job, S):
   os.makedirs(d, exist_ok=True)
   jf = os.path.join(d, 'pm%d.jobs.json' % os.getpid())
   with open(jf, 'w') as f:
-    json.dump([[0, dict(job, mode='sweep', need=job.get('need', 0), sizes=[S])]], f)
+    json.dump([[0, dict(job, need=1 << 20, chunk=0, nchunk=1, min_size=0, only=[S])]], f)
   try:
     p = subprocess.run(['gdb', '-batch', '-ex', 'run', '-ex', 'bt 8', '-ex', 'p $_siginfo._sifields._sigfault', '--args',
                         sys.executable, '-m', 'checks.c20_worker', jf, jf + '.out'], cwd=asanproc.runner.VERIF,
@@ -58,11 +60,13 @@ def postmortem(job, S):
   return '\n'.join(keep)[:3000]
 
 
-def sizes_for(need, quick):
+def sizes_for(need, quick, low_only=False):
   sizes = set([need - 1, need, need + 64, 0, 1, 8, 63, 64])
+  if low_only:
+    return sorted(sizes | set(range(0, min(need, 8192), 32 if quick else 8)))
   if quick:
-    # ~700 sizes per scene: every failure window wider than need/700 (>= 64 bytes) is hit at least once
-    sizes |= set(range(0, need, max(64, (need // 700) // 8 * 8)))
+    # ~150 sizes per scene: every failure window wider than need/150 (>= 64 bytes) is hit at least once
+    sizes |= set(range(0, need, max(64, (need // 150) // 8 * 8)))
     sizes |= set(range(0, min(need, 4096), 32))
   else:
     sizes |= set(range(0, need, 64))
@@ -72,7 +76,7 @@ def sizes_for(need, quick):
 
 def main(ck):
   ck.rule = ('Hypothesis scenes (collected in the parent, executed in workers) x swept memory sizes; one evaluation = one '
-             '(scene, memory size, build variant) run of up to 3 steps; non-trivial = an allocation site failed: a '
+             '(scene, memory size, build variant) run of up to 3 steps (2 in the quick tier); non-trivial = an allocation site failed: a '
              'CONTACTFULL/CNSTRFULL warning or a catchable mju_error was observed (or the run violated the property); '
              'distinct by (scene, size, variant)')
   ck.assumptions = ['"warning iff smaller set" is asserted as: smaller set => warning, and no warning => identical result; '
@@ -83,12 +87,12 @@ def main(ck):
                     '<size memory> compiles to); sizes too small for the compiler itself are thereby also covered',
                     'a release-build worker death carries no report: it is attributed to the known pushPairArena finding only if '
                     'the ASan sweep of the same scene died in pushPairArena as well']
-  nmodels = ck.budget(8, 200)
+  nmodels = ck.budget(6, 200)
   scenes = []
 
   def collect(case):
     scenes.append(case)
-  ck.run_hypothesis(collect, st.tuples(gc.scenes(max_objects=14 if ck.quick else 24), st.integers(0, 2 ** 31 - 1)),
+  ck.run_hypothesis(collect, st.tuples(gc.scenes(max_objects=10 if ck.quick else 24), st.integers(0, 2 ** 31 - 1)),
                     nmodels, name='scenes')
   scenes[:] = scenes[:nmodels]
   # fixed regression scene (found by this check): 14 spheres whose margins make every pair pass the broadphase, so that
@@ -96,7 +100,7 @@ def main(ck):
   balls = ''.join('<body pos="%g %g %g"><freejoint/><geom type="sphere" size="0.1" margin="0.6"/></body>' % (
       (i % 4) * 0.26, ((i // 4) % 4) * 0.26, 0.098) for i in range(14))
   scenes.append((dict(body='<worldbody><geom type="plane" size="5 5 .1"/>%s</worldbody>' % balls,
-                      labels=['layout:cluster', 'regression-scene'], nobj=14), 0))
+                      labels=['layout:cluster', 'regression-scene', 'pair-window'], nobj=14), 0))
   # two fixed scenes that guarantee the dual-solver paths (efc_Y / efc_AR arena arrays), sparse and dense
   boxes = ''.join('<body pos="%g %g %g"><freejoint/><geom type="box" size=".1 .08 .06" condim="%d"/></body>' % (
       (i % 2) * 0.17, ((i // 2) % 2) * 0.15, 0.058 + (i // 4) * 0.115, (3, 4, 6, 1)[i % 4]) for i in range(8))
@@ -108,8 +112,8 @@ def main(ck):
   for v in ('rel', 'asan'):
     vb.build(v)
   tmo = 600 if ck.quick else 5400
-  npa, npr = (6, 2) if ck.quick else (12, 4)
-  base = [dict(scene=sc, seed=seed, nsteps=3, variant='asan', sid=i) for i, (sc, seed) in enumerate(scenes)]
+  npa, npr = (8, 2) if ck.quick else (12, 4)
+  base = [dict(scene=sc, seed=seed, nsteps=(2 if ck.quick else 3), variant='asan', sid=i) for i, (sc, seed) in enumerate(scenes)]
   base += [dict(b, variant='rel') for b in base[::2]]
 
   def run_wave(jobs):
@@ -125,12 +129,16 @@ def main(ck):
           res[i] = o
     ths = [threading.Thread(target=go, args=(ia, True, npa, 'C20asan')),
            threading.Thread(target=go, args=(ir, False, npr, 'C20rel'))]
+    t0 = time.time()
     for t in ths:
       t.start()
     for t in ths:
       t.join()
+    waves.append((len(ia), len(ir), round(time.time() - t0, 1)))
     return res
 
+  waves = []
+  ck.extra['waves(asan_jobs,rel_jobs,seconds)'] = waves
   asan_pair_death = set()     # scene ids whose ASan sweep died in pushPairArena
   deaths = []                 # deferred: (job, res) of worker deaths, reported after all waves (rel attribution)
 
@@ -145,45 +153,15 @@ def main(ck):
             labels=['variant=' + job['variant'], 'outcome:process-death'] + job['scene']['labels'])
     return j.get('memory')
 
-  # ---- wave 1: need by bisection (a size that kills the worker is avoided in the retry and reported)
+  # ---- waves: each job bisects the need of its scene and sweeps its share of the sizes; after a worker death the job
+  # is resubmitted to continue behind the fatal size (sizes right above it are skipped: same failing window)
   info = {}
-  pending = [dict(b, mode='bisect', avoid=[]) for b in base]
-  for attempt in range(6):
-    if not pending:
-      break
-    out = run_wave(pending)
-    nxt = []
-    for job, res in zip(pending, out):
-      if res['ok']:
-        r = res['result']
-        if r.get('discard'):
-          ck.discard('scene unstable with ample memory')
-        for v in r['violations']:
-          ck.violation('%s [%s build]' % (v['msg'], job['variant']), dict(xml=gc.render(job['scene']), seed=job['seed']),
-                       bucket=v['bucket'])
-        if r['need'] is not None:
-          info[(job['sid'], job['variant'])] = r
-      elif res.get('harness'):
-        raise RuntimeError('worker setup failed: %s' % res['stderr'][-1500:])
-      else:
-        S = note_death(job, res)
-        if S is not None:
-          nxt.append(dict(job, avoid=job['avoid'] + [S]))
-    pending = nxt
-  # ---- wave 2+: sweeps in chunks; after a death the rest of the chunk is resubmitted without the fatal size
-  pending = []
-  for b in base:
-    r = info.get((b['sid'], b['variant']))
-    if not r:
-      continue
-    sizes = sizes_for(r['need'], ck.quick)
-    nchunk = 3 if ck.quick else 8
-    for c in range(nchunk):
-      pending.append(dict(b, mode='sweep', need=r['need'], sizes=sizes[c::nchunk]))
+  nchunk = 3 if ck.quick else 8
+  pending = [dict(b, quick=ck.quick, chunk=c, nchunk=nchunk, avoid=[], min_size=0) for b in base for c in range(nchunk)]
   needs = []
   seen_sig = set()
   ck.max_samples = 8
-  for attempt in range(8):
+  for attempt in range(10):
     if not pending:
       break
     out = run_wave(pending)
@@ -194,18 +172,22 @@ def main(ck):
         if res.get('harness'):
           raise RuntimeError('worker setup failed: %s' % res['stderr'][-1500:])
         S = note_death(job, res)
-        # resubmit the rest of the chunk; sizes right above a fatal size are skipped (same failing window, each one
-        # would cost a worker) and counted
-        rest = [x for x in job['sizes'] if S is not None and x > S + 256]
-        skipped = [x for x in job['sizes'] if S is not None and S < x <= S + 256]
-        if skipped:
-          ck.discard('size within 256 bytes above a fatal size (not executed)')
-          ck.extra['skipped_after_death'] = ck.extra.get('skipped_after_death', 0) + len(skipped)
-        if rest:
-          nxt.append(dict(job, sizes=rest))
+        j = res.get('journal') or {}
+        if S is None:
+          continue
+        if j.get('phase') == 'bisect':
+          nxt.append(dict(job, avoid=job['avoid'] + [S]))
+        else:
+          ck.discard('sizes within 256 bytes above a fatal size (not executed)')
+          nxt.append(dict(job, min_size=S + 257))
         continue
       r = res['result']
-      need = job['need']
+      if r.get('discard'):
+        ck.discard('scene unstable with ample memory')
+        continue
+      need = r['need']
+      if need is not None:
+        info[(job['sid'], key)] = r
       for v in r['violations']:
         fp = KNOWN_ISLAND if v['bucket'] == 'efc_address:island-failure' else None
         ck.violation('%s [%s build]' % (v['msg'], key),
@@ -235,6 +217,7 @@ def main(ck):
     needs.append(dict(scene=sid, variant=variant, nobj=scenes[sid][0]['nobj'], need=r['need'],
                       maxuse_unbounded=r.get('maxuse_unbounded'), ref=r['ref']))
   # ---- report worker deaths
+  pm_cache = {}
   for job, res in deaths:
     j = res.get('journal') or {}
     key = job['variant']
@@ -243,7 +226,9 @@ def main(ck):
     if key == 'asan' and 'pushPairArena' in blob:
       fp = KNOWN_PAIR
     if key == 'rel' and res['rc'] == -11:
-      pm = postmortem(job, j.get('memory'))
+      if job['sid'] not in pm_cache:
+        pm_cache[job['sid']] = postmortem(job, j.get('memory'))
+      pm = pm_cache[job['sid']]
       res['report'] = pm
       if re.search(r'#0\s+\S+ in (mj_collision|pushPairArena|pushGeomGeom) ', pm) and re.search(r'si_addr = (0x0|0x[0-9a-f]{1,3})\b', pm):
         fp = KNOWN_PAIR        # write through the NULL page inside the broadphase pair push
